@@ -77,14 +77,21 @@ theorem factsOf_sound {o : Ops K} (ho : OrderedLike o) (env : Nat → K) {path :
 theorem slackNonneg_sound {o : Ops K} (ho : OrderedLike o) (env : Nat → K) {d : E}
     (h : slackNonneg d = true) : 0 ≤ d.eval o env := by
   have hr := ho.toRingLike
-  simp only [slackNonneg, Bool.or_eq_true] at h
-  rcases h with (((h | h) | h) | h) | h
+  simp only [slackNonneg, Bool.or_eq_true, List.any_eq_true, Bool.and_eq_true] at h
+  rcases h with ((((h | h) | h) | h) | h) | ⟨l, _, hl, h⟩
   · rw [polyEq_sound' hr h env]; simp [E.eval, ho.lit]
   · rw [polyEq_sound' hr h env]; simp [E.eval, ho.lit]
   · rw [polyEq_sound' hr h env]; simp [E.eval, ho.lit]
   · rw [polyEq_sound' hr h env]; simpa [E.eval] using ho.eps_nonneg
   · rw [polyEq_sound' hr h env]; simp only [E.eval, ho.add, ho.lit]
     have := ho.eps_nonneg; push_cast; linarith
+  · rw [polyEq_sound' hr h env]
+    cases l with
+    | lit n dd =>
+      simp only [isNonnegLit, decide_eq_true_eq] at hl
+      simp only [E.eval, ho.litq]
+      exact div_nonneg (by exact_mod_cast hl) (by positivity)
+    | _ => simp [isNonnegLit] at hl
 
 theorem pathLE_sound {o : Ops K} (ho : OrderedLike o) (env : Nat → K) {path : Path} {x y : E}
     (h : pathLE path x y = true) (hp : pathHolds o env path) : x.eval o env ≤ y.eval o env := by
